@@ -8,7 +8,8 @@ import StraxModel.Model.FS
     c04.ops <variant> <recheck> <chunks>   the fault-free op list of the protocol
 
   chunks   `-` or `/`-separated `start;stop;rows`            (rows as everywhere: `t:e:id,…` or `-`)
-  attempt  `variant|recheck|rmorder|fault|extraStart|extraChunks|abandoned|show`
+  attempt  `variant|recheck|rmorder|fault|extraStart|extraChunks|abandoned|lostClose|show`
+           lostClose 1 = threaded processor as it is (an exception of the final close is not reported, D14)
            variant ser|exe|frk, recheck 1 (fixed protocol) | 0 (old protocol, D3), rmorder li|mf|ml,
            fault `none` | `exc@k` | `db@k` | `da@k` (k-th FS operation of the attempt) | `ab@k` (exception thrown in after k ops)
   report   `<result> find=<ok|err Kind> load=<ok chunks|err Kind> d12=<0|1> ops=<op,op,…>`
@@ -94,12 +95,14 @@ structure C04Attempt where
   extraStart : Nat
   extra : List Chunk
   abandoned : Bool
+  lostClose : Bool
   show_ : String      -- which parts of the report to print: r(esult) o(ps) l(isting)
 
 def c04Attempt (s : String) : Option C04Attempt :=
   match s.splitOn "|" with
-  | [v, r, o, f, es, ex, ab, sh] => do
-    pure ⟨← c04Variant v, ← parseBool r, ← c04RmOrder o, ← c04Fault f, ← es.toNat?, ← c04Chunks ex, ← parseBool ab, sh⟩
+  | [v, r, o, f, es, ex, ab, lc, sh] => do
+    pure ⟨← c04Variant v, ← parseBool r, ← c04RmOrder o, ← c04Fault f, ← es.toNat?, ← c04Chunks ex, ← parseBool ab,
+          ← parseBool lc, sh⟩
   | _ => none
 
 def nameKey : Name → Nat × Nat
@@ -112,10 +115,11 @@ def showDir : Option Dir → String
     "[" ++ ",".intercalate (ns.map showName) ++ "]"
 
 def c04Report (fs : FS) (cs : List Chunk) (a : C04Attempt) : FS × String :=
-  let (c, res) := attempt fs a.v a.recheck cs ⟨a.v, a.extra, a.extraStart, a.abandoned⟩ a.order a.fault
+  let (rr, res) := attempt fs a.v a.recheck cs ⟨a.v, a.extra, a.extraStart, a.abandoned, a.lostClose⟩ a.order a.fault
+  let c := rr.cfg
   let has (ch : Char) : Bool := a.show_.toList.contains ch
   let r := if has 'r' then showResult res else "*"
-  let o := if has 'o' then showOps c.log.reverse else "*"
+  let o := if has 'o' then showOps rr.log.reverse else "*"
   let l := if has 'l' then s!"F{showDir c.fs.final}T{showDir c.fs.temp}" else "*"
   (c.fs, s!"{r} find={showUnit (find c.fs)} load={showLoad (loads c.fs)} d12={if D12 c.fs then 1 else 0} ls={l} ops={o}")
 
@@ -139,8 +143,8 @@ def handleC04 : List String → Option String
     let cs ← c04Chunks chunks
     let v ← c04Variant v
     let r ← parseBool r
-    let (c, _) := attempt FS.empty v r cs ⟨v, [], 0, false⟩ .sorted none
-    pure <| showOps c.log.reverse
+    let (rr, _) := attempt FS.empty v r cs ⟨v, [], 0, false, false⟩ .sorted none
+    pure <| showOps rr.log.reverse
   | _ => none
 
 end Strax.Driver
